@@ -255,11 +255,11 @@ def run_one(ch, env):
     res = {"config": {"workflow": wf, "workers": workers}, "extra": {"wf_" + wf: 1},
            "probes": {"wf_" + wf: 1}}
     digests = []
-    state = {"violation": None}
+    state = {"violation": None, "skip": None}
     old_env = os.environ.get("SLURM_NPROCS")
     os.environ["SLURM_NPROCS"] = str(workers)
 
-    def under_sim(fn, label):
+    def under_sim(fn, label, first=True):
         sim = Sim(ch, step_cap=120000)
         sim.rootdir = d
         sim.write_yields = 0
@@ -275,7 +275,13 @@ def run_one(ch, env):
             state["violation"] = viol(PROP, "does-not-return", "%s did not return: %s" % (label, sim.status))
             return None
         if t.exc is not None:
-            state["violation"] = viol(PROP, "raised", "%s raised %r\n%s" % (label, t.exc, (t.exc_tb or "")[-900:]))
+            if first:
+                # C17 says nothing about inputs a workflow rejects or cannot handle (e.g. an image too small for
+                # the requested TOAST level): a first call that raises produced nothing to compare - not evaluated
+                state["skip"] = "%s raised %r" % (label, t.exc)
+                res["extra"]["first_call_raised_not_evaluated"] = 1
+                return None
+            state["violation"] = viol(PROP, "raised-on-repeat", "%s raised %r although the identical earlier call on this directory succeeded\n%s" % (label, t.exc, (t.exc_tb or "")[-900:]))
             return None
         if sim.stderr:
             state["violation"] = viol(PROP, "worker-traceback", "%s: a worker failed: %s" % (label, sim.stderr[0][-700:]))
@@ -287,6 +293,9 @@ def run_one(ch, env):
             toast_mode = wf == "tile_fits_toast"
             col = fitsgen.draw_collection(ch, max_images=1 if toast_mode else 3, sizes=(60, 200, 300) if toast_mode else (60, 200, 300, 520))
             if toast_mode:
+                r0 = col.rects[0]
+                r0["r0"], r0["c0"], r0["h"], r0["w"] = col.R0, col.C0, max(col.H, 40), max(col.W, 40)
+                col.H, col.W = r0["h"], r0["w"]
                 col.scale = 0.05
                 col.theta = (0.0, 30.0)[ch.draw(2, kind="rot2")]
                 for r in col.rects:
@@ -322,8 +331,8 @@ def run_one(ch, env):
                     return toasty.tile_fits(col.paths, out_dir=out, override=override, parallel=workers,
                                             tiling_method=TilingMethod.TOAST if toast_mode else TilingMethod.TAN, **kw)
 
-                r = under_sim(call, label)
-                if state["violation"]:
+                r = under_sim(call, label, first=(k == 0))
+                if state["violation"] or state["skip"]:
                     break
                 out_dir, b = r
                 v = check_wtml_vs_tree(out, label, content_ref)
@@ -355,7 +364,7 @@ def run_one(ch, env):
                 return b
 
             b = under_sim(call, label)
-            if not state["violation"]:
+            if not state["violation"] and not state["skip"]:
                 v = check_wtml_vs_tree(out, label, ref)
                 if v is None:
                     v = check_builder_vs_wtml(b, out, label)
@@ -384,7 +393,7 @@ def run_one(ch, env):
                 return b
 
             b = under_sim(call, label)
-            if not state["violation"]:
+            if not state["violation"] and not state["skip"]:
                 v = check_wtml_vs_tree(out, label, None)
                 if v is None:
                     v = check_builder_vs_wtml(b, out, label)
@@ -417,7 +426,7 @@ def run_one(ch, env):
                 tp.PipelineManager(work).process_todos()
 
             under_sim(call, label)
-            if not state["violation"]:
+            if not state["violation"] and not state["skip"]:
                 v = check_wtml_vs_tree(os.path.join(work, "processed", uid), label, ref)
                 if v is not None:
                     state["violation"] = viol(PROP, v[0], v[1])
@@ -428,5 +437,9 @@ def run_one(ch, env):
         else:
             os.environ["SLURM_NPROCS"] = old_env
     res["violation"] = state["violation"]
+    if state["skip"]:
+        res["probes"] = {}
+        res["nontrivial"] = False
+        res["config"]["not_evaluated"] = state["skip"][:200]
     res["digest"] = hashlib.sha1(("|".join(digests) + repr(sorted(res["config"].items(), key=str))).encode()).hexdigest()
     return res
